@@ -1,10 +1,15 @@
 //! C03 (field values): SlicedPacket::{from_ethernet, from_linux_sll, from_ether_type,
 //! from_ip} on arbitrary bytes, then the header field values of every layer read
-//! through the real slice accessors (canonical line, see ../fieldfmt.rs).
+//! through the real slice accessors (canonical line, see ../fieldfmt.rs), followed by the
+//! values of the derived / typed accessors as `<layer>.d:` items (../fieldfmt2.rs).
 use etherparse::*;
 use vh::*;
 #[path = "../fieldfmt.rs"]
 mod fieldfmt;
+// -- begin audit follow-up: derived / typed accessors --
+#[path = "../fieldfmt2.rs"]
+mod fieldfmt2;
+// -- end audit follow-up --
 
 fn main() {
     main_loop(run);
@@ -26,7 +31,12 @@ fn run(line: &str) -> String {
         panic!("bad entry {}", entry)
     };
     match r {
-        Ok(p) => fieldfmt::packet(&p),
+        Ok(p) => {
+            // raw header fields, then (audit follow-up) the derived / typed accessors
+            let mut o = fieldfmt::packet_out(&p);
+            fieldfmt2::packet(&mut o, &p, &data);
+            o.finish()
+        }
         Err(_) => "err".to_string(),
     }
 }
